@@ -1,6 +1,6 @@
 import Cctp.Model.Bytes
 import Cctp.Model.Result
-import Cctp.Gen.Constants
+import Cctp.Model.Consts
 /-
   types/message.go and types/burn_message.go, written against the *generated* offset constants
   (Cctp.Gen.*), so that a change to constants.go changes this codec.  The literal-offset CCTP
